@@ -125,6 +125,10 @@ struct Snap {
 
 static void take_snapshot(const TopologyKernel &m, Snap &s) {
   s.overflow = false;
+  for (int i = 0; i < MAXV; ++i) s.vdel[i] = false;
+  for (int i = 0; i < MAXE; ++i) { s.efrom[i] = 0; s.eto[i] = 0; s.edel[i] = false; }
+  for (int i = 0; i < MAXF; ++i) { s.fval[i] = 0; s.fdel[i] = false; for (int k = 0; k < MAXFV; ++k) s.fhe[i][k] = 0; }
+  for (int i = 0; i < MAXC; ++i) { s.cval[i] = 0; s.cdel[i] = false; for (int k = 0; k < MAXCV; ++k) s.chf[i][k] = 0; }
   s.nV = (int)m.n_vertices(); s.nE = (int)m.n_edges(); s.nF = (int)m.n_faces(); s.nC = (int)m.n_cells();
   if (s.nV > MAXV || s.nE > MAXE || s.nF > MAXF || s.nC > MAXC) { s.overflow = true; return; }
   for (int i = 0; i < s.nV; ++i) s.vdel[i] = m.is_deleted(VH(i));
